@@ -1145,9 +1145,46 @@ func runCorr(a map[string]string) {
 		panic(err)
 	}
 	defer out.Close()
+	byKind := map[string]map[string]int{}
+	classOf := func(res string) string {
+		t := res
+		if i := strings.IndexByte(t, ' '); i >= 0 {
+			t = t[:i]
+		}
+		allHex, allDig := len(t) > 0, len(t) > 0
+		for _, ch := range t {
+			if !(ch >= '0' && ch <= '9' || ch >= 'a' && ch <= 'f') {
+				allHex = false
+			}
+			if !(ch >= '0' && ch <= '9') {
+				allDig = false
+			}
+		}
+		switch {
+		case allDig && len(t) <= 2:
+			return t
+		case allDig:
+			return "<number>"
+		case allHex:
+			return fmt.Sprintf("<hex:%d>", len(t)/2)
+		case strings.HasPrefix(t, "0x") || strings.HasPrefix(t, "\"0x"):
+			return fmt.Sprintf("<0x-string:%d>", len(t))
+		case len(t) > 20:
+			return t[:20]
+		}
+		return t
+	}
 	do := func(line string) {
 		line = complete(line)
-		out.Do(line, func() string { return exec(line) })
+		res := out.Do(line, func() string { return exec(line) })
+		k := line
+		if i := strings.IndexByte(k, ' '); i >= 0 {
+			k = k[:i]
+		}
+		if byKind[k] == nil {
+			byKind[k] = map[string]int{}
+		}
+		byKind[k][classOf(res)]++
 	}
 	// corpus first
 	ncorpus := 0
@@ -1472,7 +1509,11 @@ func runCorr(a map[string]string) {
 				"0x000" + canon[2:], canon + "g", canon + " ", "0x" + canon[2:] + "_1", canon[:len(canon)-1], "0x", "0", "", "x", "0xzz", "0x+" + canon[2:], "0x-1", "\"" + canon + "\""} {
 				do("skseth " + old + " " + hexv(t))
 				do("idseth " + old + " " + hexv(t))
-				do("idunjson " + old + " " + hexv(t))
+				// JSON: mostly properly quoted (so that the hex parser behind it is reached), sometimes raw
+				do("idunjson " + old + " " + hexv("\""+t+"\""))
+				if len(t)%3 == 0 {
+					do("idunjson " + old + " " + hexv(t))
+				}
 			}
 			var id groupsig.ID
 			id.SetBigInt(new(big.Int).Mod(v, new(big.Int).Lsh(big.NewInt(1), 256)))
@@ -1504,8 +1545,11 @@ func runCorr(a map[string]string) {
 			for _, t := range []string{ph, "0x" + strings.ToUpper(ph[2:]), ph[:len(ph)-1], ph + "00", ph[2:], "0x", "", "0x00", "\"" + ph + "\"", "'" + ph + "'", "\""} {
 				do("pkseth " + hx.Hex(pkb) + " " + hexv(t))
 				do("pkseth - " + hexv(t))
-				do("pkunjson - " + hexv(t))
-				do("pkunjson " + hx.Hex(pkb) + " " + hexv(t))
+				do("pkunjson - " + hexv("\""+t+"\""))
+				do("pkunjson " + hx.Hex(pkb) + " " + hexv("\""+t+"\""))
+				if len(t)%3 == 0 {
+					do("pkunjson - " + hexv(t))
+				}
 			}
 		}
 		do("sighex -")
@@ -1585,6 +1629,7 @@ func runCorr(a map[string]string) {
 	st := map[string]interface{}{}
 	json.Unmarshal([]byte(out.StatsJSON()), &st)
 	st["classes"] = g.class
+	st["results_by_kind"] = byKind
 	st["corpus"] = ncorpus
 	js, _ := json.Marshal(st)
 	fmt.Println("STATS " + string(js))
